@@ -292,6 +292,25 @@ def encList (f : Val → Enc) : VL → Enc
   | .nil => .ok []
   | .cons v vs => (f v).seq (encList f vs)
 
+/-- which optional members of a struct are present, in member order -/
+def optFlags : ML → VL → List Bool
+  | .cons (.optional _) ms, .cons v vs => (match v with | .none => false | _ => true) :: optFlags ms vs
+  | .cons _ ms, .cons _ vs => optFlags ms vs
+  | _, _ => []
+
+/-- an absent optional member followed by a present one -/
+def noneThenSome : List Bool → Bool
+  | a :: b :: rest => (!a && b) || noneThenSome (b :: rest)
+  | _ => false
+
+/-- `assert!(self.a.is_some() || self.b.is_none())` for consecutive optional members `a`, `b` -/
+def optGuard (ms : ML) (vs : VL) : Bool := !noneThenSome (optFlags ms vs)
+
+/-- the struct-level asserts in front of the member encodings -/
+def guardWrap (ok : Bool) : Enc → Enc
+  | .badValue => .badValue
+  | e => if ok then e else .panic "assert!(a.is_some() || b.is_none())"
+
 mutual
 /-- One member in message encoding (`assert_expr`, then `encode_expr`). -/
 def encM : MT → Val → Enc
@@ -327,20 +346,24 @@ def encM : MT → Val → Enc
   | .packedAddresses, .bytes d => if d.length % 18 = 0 then .ok d else .badValue
   | .serverinfoClient, .bytes d => .ok d
   | .twString count, .list vs => if vs.length = count then encList (fun | .int v => encInt v | _ => .badValue) vs else .badValue
-  -- `assert!(x.is_some())`; `<inner>(x.unwrap())`                                   (defect D24)
-  | .optional _, .none => .panic "assert!(is_some())"
+  -- `if let Some(v) = x { <inner>(v)?; }` (since the fix of D24; before: `assert!(x.is_some())`)
+  | .optional _, .none => .ok []
   | .optional t, .some v => encM t v
   -- `for &e in &x { <assert> }`; `for &e in &x { <encode>?; }`
   | .array n t, .list vs => if vs.length = n then encList (encM t) vs else .badValue
   -- `with_packer(&mut _p, |p| x.encode_msg(p))?`
-  | .object ms, .list vs => encMs ms vs
+  | .object ms, .list vs => guardWrap (optGuard ms vs) (encMs ms vs)
   | _, _ => .badValue
 
+/-- the member encodings of a struct, in order -/
 def encMs : ML → VL → Enc
   | .nil, .nil => .ok []
   | .cons t ms, .cons v vs => (encM t v).seq (encMs ms vs)
   | _, _ => .badValue
 end
+
+/-- `T::encode(&self, _p)`: the asserts, then the members -/
+def encStruct (ms : ML) (vs : VL) : Enc := guardWrap (optGuard ms vs) (encMs ms vs)
 
 /-! ### Message identifiers (`gamenet/common/src/msg.rs`) -/
 
@@ -403,7 +426,7 @@ def decodeMsg (p : ProtoSpec) (inp : List UInt8) : MsgDecoded :=
 /-- `System::encode` / `Game::encode`: id, then the members. -/
 def encodeMsg (sys : Bool) (s : Spec) (v : VL) : Enc :=
   -- constructing the value comes first; `encode_id` runs before `encode_msg`
-  match encMs s.members v with
+  match encStruct s.members v with
   | .badValue => .badValue
   | body => (encodeId sys s.id).seq body
 
@@ -435,7 +458,7 @@ def decodeConnless (p : ProtoSpec) (inp : List UInt8) : ConnlessDecoded :=
 
 /-- `Connless::encode` -/
 def encodeConnless (s : ConnlessSpec) (v : VL) : Enc :=
-  match encMs s.members v with
+  match encStruct s.members v with
   | .badValue => .badValue
   | body => (Enc.ok s.id).seq body
 
